@@ -1,0 +1,18 @@
+//go:build verif
+
+package vaxis
+
+// Hooks for the verification harness under /verif (property C11). Compiled
+// only with `-tags verif`; read-only, they change no behaviour.
+
+// VerifC11NextCells returns a copy of the next-frame screen buffer
+// (rows x cols), i.e. what Window.SetCell/SetStyle have written so far.
+func (vx *Vaxis) VerifC11NextCells() [][]Cell {
+	vx.mu.Lock()
+	defer vx.mu.Unlock()
+	out := make([][]Cell, len(vx.screenNext.buf))
+	for i, row := range vx.screenNext.buf {
+		out[i] = append([]Cell(nil), row...)
+	}
+	return out
+}
